@@ -201,10 +201,26 @@ func vc18sQuiet() (quiet bool, sample string) {
 	return true, ""
 }
 
+// vc18sServing reports whether the goroutine dump shows a goroutine that
+// serves a connection, performs a TLS handshake or runs a query, i.e. somebody
+// who may still close a connection.  The accept loops do not count.
+func vc18sServing() (busy bool) {
+	buf := make([]byte, 1<<20)
+	buf = buf[:runtime.Stack(buf, true)]
+	for _, g := range strings.Split(string(buf), "\n\n") {
+		if strings.Contains(g, ".serveTCPConn") || strings.Contains(g, ".serveTCPMessage") || strings.Contains(g, ".acceptTCPConn.func") ||
+			strings.Contains(g, ".acceptTCPMsg") || strings.Contains(g, "HandshakeContext") || strings.Contains(g, "connlimiter.(*limitConn)") {
+			return true
+		}
+	}
+
+	return false
+}
+
 func TestVerifC18Stack(t *testing.T) {
 	st := vstat.New("C18", "limiter.stack",
-		"rapid client schedules (open TCP/TLS connection with 1-3 queries, release answered/unanswered, close, reset, wait past a short idle timeout) against a real ServerDNS(TCP) and ServerTLS sharing one Limiter (stop 3..7, resume above the number of listeners as doc/configuration.md asks) with pipeline limiting; a counting listener under the limiter gives open+pending independently; non-trivial = the limiter was at stop while a client was still waiting; distinct by (stop, resume, schedule)",
-		"at-stop-with-client-waiting", "waiting-client-served-later", "closed-by-server-unanswered", "tcp-and-tls-share-limiter", "client-reset", "idle-timeout")
+		"rapid client schedules (open TCP/TLS connection with 1-3 queries, release answered/unanswered, close, reset, send non-TLS bytes or a cut handshake to the DoT server and close, wait past a short idle timeout) against a real ServerDNS(TCP) and ServerTLS sharing one Limiter (stop 3..7, resume above the number of listeners as doc/configuration.md asks) with pipeline limiting; a counting listener under the limiter gives open+pending independently; non-trivial = the limiter was at stop while a client was still waiting; distinct by (stop, resume, schedule)",
+		"at-stop-with-client-waiting", "waiting-client-served-later", "closed-by-server-unanswered", "tcp-and-tls-share-limiter", "client-reset", "idle-timeout", "failed-handshake-then-closed")
 	st.Finish(t)
 
 	tlsConf := dnsservertest.CreateServerTLSConfig(vc18sTLSName)
@@ -373,6 +389,8 @@ func vc18sCase(t *rapid.T, st *vstat.Stats, tlsConf *tls.Config) {
 			add(5, "open-tls", 1)
 		}
 
+		add(3, "bad-handshake", 1)
+
 		for ci, c := range clients {
 			if !c.released {
 				add(2, "release", ci)
@@ -506,6 +524,27 @@ func vc18sCase(t *rapid.T, st *vstat.Stats, tlsConf *tls.Config) {
 
 			closeClient(c)
 			time.Sleep(time.Millisecond)
+		case "bad-handshake":
+			// A client of the DoT server that sends something else than TLS,
+			// or cuts the handshake, and goes away.
+			classes["failed-handshake-then-closed"] = true
+			raw, derr := net.DialTimeout("tcp", addrs[1], vc18SettleTimeout)
+			if derr != nil {
+				vc18Inconclusive(t, "dial %s: %v", addrs[1], derr)
+			}
+
+			switch rapid.IntRange(0, 2).Draw(t, "badKind") {
+			case 0:
+				_, _ = raw.Write([]byte("GET / HTTP/1.0\r\n\r\n"))
+			case 1:
+				// The first bytes of a TLS record, then nothing.
+				_, _ = raw.Write([]byte{0x16, 0x03, 0x01, 0x02, 0x00, 0x01})
+			default:
+			}
+
+			time.Sleep(time.Millisecond)
+			_ = raw.Close()
+			time.Sleep(time.Millisecond)
 		case "idle":
 			classes["idle-timeout"] = true
 			time.Sleep(idle + idle/2)
@@ -526,6 +565,57 @@ func vc18sCase(t *rapid.T, st *vstat.Stats, tlsConf *tls.Config) {
 	// Everything is let go, closed and shut down: the limiter's counter must
 	// equal what really is still open under it (normally nothing), and no
 	// connection was closed more than once under the limiter.
+	// All clients go away; the servers stay up.  Every connection the servers
+	// have accepted must now be closed by them.  A connection that is still
+	// open under the limiter while, in two goroutine dumps 100 ms apart, no
+	// goroutine serves a connection, performs a handshake or runs a query, has
+	// nobody left who could ever close it: its slot is never released.
+	for _, c := range clients {
+		releaseClient(c)
+		closeClient(c)
+	}
+
+	for _, c := range clients {
+		<-c.done
+	}
+
+	stillOpen := func() (n int, sample string) {
+		w.mu.Lock()
+		defer w.mu.Unlock()
+
+		for _, nc := range w.accepted {
+			if nc.closes == 0 {
+				n++
+				sample = fmt.Sprintf("%s->%s", nc.RemoteAddr(), nc.LocalAddr())
+			}
+		}
+
+		return n, sample
+	}
+
+	goneAt := time.Now()
+	for end := goneAt.Add(vc18SettleTimeout); ; {
+		n, sample := stillOpen()
+		if n == 0 {
+			break
+		}
+
+		// Dumps are expensive; a healthy server needs a few milliseconds.
+		if time.Since(goneAt) > 50*time.Millisecond && !vc18sServing() {
+			time.Sleep(100 * time.Millisecond)
+			if n2, _ := stillOpen(); n2 == n && !vc18sServing() {
+				fail("connection never released: all clients have gone, %d connection(s) accepted under the limiter (e.g. %s) were never closed by the server and still hold their slots, and no goroutine is serving a connection, performing a handshake or running a query any more",
+					n, sample)
+			}
+		}
+
+		if time.Now().After(end) {
+			vc18Inconclusive(t, "%d connections still open %s after all clients went away, servers still busy", n, vc18SettleTimeout)
+		}
+
+		time.Sleep(2 * time.Millisecond)
+	}
+
 	tdStart := time.Now()
 	teardown()
 	trace = append(trace, "shutdown")
